@@ -15,7 +15,7 @@ RULE = ('worlds = 6 layer shapes x every placement of <=B bad items (failure, '
         'modes {sequential, -j1, -j2, -j3, resumed children} x filter options '
         'x child faults {spawn failure, report truncated at every line '
         'boundary, child dies before/after the header, empty stderr}; oracle: '
-        'Runner.failed == (ground truth from spec+trace is bad); non-trivial '
+        'Runner.failed == (ground truth from spec+trace is bad); 9 worlds x 3 modes are also run as real command lines and the exit status compared; non-trivial '
         '= >=1 bad item, look-alike or child fault')
 ASSUMPTIONS = [
     'children are in-process real Runners; child death is modelled by cutting the byte streams the parent reads',
@@ -83,6 +83,10 @@ def cases(tier, seed):
     for shape, sc, lf, bm in _items(tier):
         for m in worlds.rot(modes, seed):
             yield [shape, sc, lf, bm, m, None]
+    # the exit status of the real command line (real processes)
+    for wi in range(len(CLI_WORLDS)):
+        for m in ('seq', 'j2', 'v'):
+            yield ['cli', wi, m]
     # child faults: worlds with children, one fault at a time
     for shape in ('N1B2C1', 'A2B1i', 'U1A2'):
         nslots = len(ow.SHAPES[shape][1])
@@ -99,6 +103,38 @@ def cases(tier, seed):
                     if tier == 'thorough':
                         for off in range(0, 120):
                             yield [shape, scs, {}, [], m, [which, 'cutbyte', off]]
+
+
+CLI_WORLDS = [
+    ('N1B2C1', ['pass', 'pass', 'pass', 'pass'], {}, []),
+    ('N1B2C1', ['pass', 'pass', 'fail', 'pass'], {}, []),
+    ('N1B2C1', ['pass', 'pass', 'pass', 'uxs'], {}, []),
+    ('N1B2C1', ['pass', 'skip_dec', 'xfail', {'s': 'pass', 'w': [['fd2', 'noise\n', False]]}], {}, []),
+    ('A2B1i', ['pass', 'pass', 'pass'], {'B': {'setUp': 'ValueError'}}, []),
+    ('A2B1i', ['pass', 'pass', 'pass'], {'A': {'tearDown': 'ValueError'}}, []),
+    ('A2B1i', ['pass', 'pass', 'pass'], {'A': {'tearDown': 'NIE'}}, []),
+    ('U1A2', ['pass', 'pass', 'sub:0,1,1'], {}, []),
+    ('U1A2', ['skip_body', 'pass', 'pass'], {}, []),
+]
+
+
+def run_cli_case(wi, m):
+    shape, sc, lf, bm = CLI_WORLDS[wi]
+    spec = ow.build(shape, sc, lf)
+    argv = list(MODES[m])
+    res = runrt.run_cli(spec, argv, timeout=120)
+    inproc = runrt.run_world(spec, argv, probe=False)
+    truth = ow.Truth(spec, inproc)
+    viol = []
+    sig = {'part': 'cli', 'mode': m}
+    want = 1 if truth.bad else 0
+    if res.rc != want:
+        viol.append({'clause': 'exit_status', 'sig': sig,
+                     'detail': 'world %s %s %s argv=%s: exit status %r, ground truth bad=%s\n%s' % (shape, sc, lf, argv, res.rc, truth.bad, res.text[-800:])})
+    if bool(inproc.failed) != bool(res.rc):
+        viol.append({'clause': 'cli_and_inprocess_disagree', 'sig': sig,
+                     'detail': 'world %s %s %s argv=%s: exit status %r, in-process failed=%r' % (shape, sc, lf, argv, res.rc, inproc.failed)})
+    return viol
 
 
 def setup_worker():
@@ -142,6 +178,10 @@ def _mk_hook(cf, state):
 
 
 def run_case(case):
+    if case[0] == 'cli':
+        viol = run_cli_case(case[1], case[2])
+        return {'evals': 2, 'nontrivial': 2, 'violations': viol, 'outcome': 'cli', 'nogate': True,
+                'counters': {'real_process_runs': 1}}
     shape, sc, lf, bm, m, cf = case
     spec = ow.build(shape, sc, lf, extra={'bad_modules': bm} if bm else None)
     argv = list(MODES[m])
